@@ -26,7 +26,12 @@ finding about the base part never hides another failure in the same record)
   `base-content`); the `encoding/xml` token stream of the base is, in order, part of the token stream of the printed
   document, compact and pretty (`kept2` = `SvgBase.keepsContent`).  The suffix after the colon names the feature of the
   BASE document (`SvgBase.features`, computed from its token stream) under which the failure is a known finding; a
-  failure on a base without such a feature keeps the plain name.
+  failure on a base without such a feature keeps the plain name.  `keptMod` = `SvgBase.keepsContentMod`: the same
+  containment after deleting from both streams exactly what the named features cover — when IT fails the clause is the
+  plain `base-content` whatever the base looks like (a loss the known findings do not explain); it is checked before the
+  clauses that carry a feature name, so a known finding on the same record cannot hide it.
+* `argument-modified`, `not-repeatable` (`callOk`, observed per call, also for an empty result): the availability map the
+  caller passed is unchanged after the call; the same argument objects passed again give the same document.
 * `wf-names`, `wf-printed` (`appendedOk`)  every appended element is well-formed as printed: its name is `rect`, `circle`
   or `text`, its attribute names are XML names and pairwise distinct, and the printed text is
   `<name a1="v1" … />` or `<name a1="v1" …>content</name>` where every `vi` is an XML `AttValue` body and `content`
@@ -300,6 +305,7 @@ def baseOk (kinds : Str) (endOk : Bool) : Bool := endOk && kinds.contains 83
 structure Observed where
   kept : Bool        -- root attributes and the base's own children unchanged in the result tree
   kept2 : Bool       -- the base's `encoding/xml` token stream is, in order, contained in that of the printed documents
+  keptMod : Bool     -- the same after deleting from both what the named features cover (`SvgBase.keepsContentMod`)
   wellformed : Bool  -- the printed documents re-parse (one root, matching tags, no duplicate attribute names)
   tail : Bool        -- the printed documents end with the printed appended elements, the root's text and end tag
 deriving Repr, DecidableEq
@@ -307,10 +313,23 @@ deriving Repr, DecidableEq
 /-- the observed clauses; `f` (the features of the base document) only chooses the NAME of a failing clause -/
 def observedOk (f : SvgBase.Features) (ob : Observed) : Option String :=
   if !ob.tail then some "printed-tail"
-  else if !ob.wellformed then some (SvgBase.wellformedClause f)
   else if !ob.kept then some "base-content"
+  else if !ob.keptMod then some "base-content"      -- a loss no feature of the base covers: never a known finding
+  else if !ob.wellformed then some (SvgBase.wellformedClause f)
   else if !ob.kept2 then some (SvgBase.contentClause f)
   else none
+
+/-- what the harness observes about a CALL (any result, also none): `args` = every argument object the callee could
+modify (the availability map) equals a deep copy taken before; `again` = the same argument objects passed again give
+the same document, and the string wrapper returns the printed document for the default render switches.  A function of
+its arguments that leaves them alone — implicit in "for every base, topology and map, the generated document is …". -/
+structure CallObs where
+  args : Bool
+  again : Bool
+deriving Repr, DecidableEq
+
+def callOk (c : CallObs) : Option String :=
+  if !c.args then some "argument-modified" else if !c.again then some "not-repeatable" else none
 
 /-- `ts` = the token stream of the base (`kinds` = its kinds); `rej` = `some class` when the base is a valid document
 that the default decoder rejects (then `endOk = false`) -/
